@@ -147,6 +147,8 @@ fn parse(text: &str) -> Parse {
                         return;
                     }
                     Some(g) => {
+                        #[cfg(feature = "verif-hooks")]
+                        crate::verif::branch("deb822:comment-not-followed-by-newline");
                         self.builder.start_node(ERROR.into());
                         self.bump();
                         self.errors.push(format!("expected newline, got {:?}", g));
@@ -162,6 +164,11 @@ fn parse(text: &str) -> Parse {
                 self.bump();
                 self.skip_ws();
             } else {
+                #[cfg(feature = "verif-hooks")]
+                {
+                    crate::verif::step();
+                    crate::verif::branch("deb822:expected-key");
+                }
                 self.builder.start_node(ERROR.into());
                 if self.current().is_some() {
                     self.bump();
@@ -173,6 +180,11 @@ fn parse(text: &str) -> Parse {
                 self.bump();
                 self.skip_ws();
             } else {
+                #[cfg(feature = "verif-hooks")]
+                {
+                    crate::verif::step();
+                    crate::verif::branch("deb822:expected-colon");
+                }
                 self.builder.start_node(ERROR.into());
                 if self.current().is_some() {
                     self.bump();
@@ -194,6 +206,8 @@ fn parse(text: &str) -> Parse {
                         self.bump();
                     }
                     Some(g) => {
+                        #[cfg(feature = "verif-hooks")]
+                        crate::verif::branch("deb822:value-not-followed-by-newline");
                         self.builder.start_node(ERROR.into());
                         self.bump();
                         self.errors.push(format!("expected newline, got {:?}", g));
@@ -213,6 +227,8 @@ fn parse(text: &str) -> Parse {
         fn parse_paragraph(&mut self) {
             self.builder.start_node(PARAGRAPH.into());
             while self.current() != Some(NEWLINE) && self.current().is_some() {
+                #[cfg(feature = "verif-hooks")]
+                crate::verif::step();
                 self.parse_entry();
             }
             self.builder.finish_node();
@@ -222,6 +238,8 @@ fn parse(text: &str) -> Parse {
             // Make sure that the root node covers all source
             self.builder.start_node(ROOT.into());
             while self.current().is_some() {
+                #[cfg(feature = "verif-hooks")]
+                crate::verif::step();
                 self.skip_ws_and_newlines();
                 if self.current().is_some() {
                     self.parse_paragraph();
@@ -240,6 +258,8 @@ fn parse(text: &str) -> Parse {
         }
         /// Advance one token, adding it to the current branch of the tree builder.
         fn bump(&mut self) {
+            #[cfg(feature = "verif-hooks")]
+            crate::verif::step();
             let (kind, text) = self.tokens.pop().unwrap();
             self.builder.token(kind.into(), text.as_str());
         }
